@@ -224,7 +224,10 @@ def bad_value(rng):
 
 
 COMMENTS = [None, None, "", "   ", "cut here", "  lead and trail \t", "a ) b ] c } d > e", 'q " r \' s */ t',
-            "x\ny", "x\r\n\r\ny", "lone\rCR M112\rend", "cr\r", "\rlead", "sem;colon # hash // slashes", "{} {0} %s", "G1 X9", "é✓  ", "tail\x85"]
+            "x\ny", "x\r\n\r\ny", "lone\rCR M112\rend", "cr\r", "\rlead", "sem;colon # hash // slashes", "{} {0} %s", "G1 X9", "é✓  ", "tail\x85",
+            # closing symbols nested in themselves / overlapping; look-alikes of the closing symbols and line boundaries
+            # other than CR / LF (hand-written members of the family fmt_common.adversarial_text generates)
+            "n )) ]] }} >> **// ***/// */*/ M112", "w \uff09 \uff3d \uff5d \uff1e \uff0a\uff0f \ufe5a *\uff0f M112\u2028G28"]
 
 
 def C(method, *args, **kwargs):
@@ -244,16 +247,34 @@ def do_call(g, spec):
     return f(*spec["a"], **spec["k"])
 
 
-def gen_op(rng, dp, malformed):
-    """(name, call spec, [stmts]) for one text-producing builder command."""
+TEXT_KINDS = ["move", "rapid", "move_absolute", "rapid_absolute", "set_axis", "auto_home", "probe", "halt", "halt_kw",
+              "comment", "annotate", "ehalt"]
+
+
+def gen_op(rng, dp, malformed, sym=";", adv=False):
+    """(name, call spec, [stmts]) for one text-producing builder command (under comment symbols `sym`).
+    adv: a command that takes free text, given an adversarial text built for the style in force"""
     from gscrib import enums as E
 
     v = lambda role="coord": value(rng, dp, role)  # noqa: E731
     bad = lambda: bad_value(rng)  # noqa: E731
+    opening, closing = F.style_of(sym)
+
+    def free_text():
+        # mostly the fixed list; otherwise an adversarial text built for the style in force (look-alikes of its
+        # closing symbol, the closing symbol nested in itself, ...): "at most one comment, nothing after it"
+        if adv or rng.random() < 0.3:
+            return F.adversarial_text(rng, opening, closing)
+        return rng.choice([c for c in COMMENTS if c is not None])
+
     cm = rng.choice(COMMENTS)
+    if adv or (cm is not None and rng.random() < 0.3):
+        cm = F.adversarial_text(rng, opening, closing)
     kind = rng.choice(["move", "move", "rapid", "move_absolute", "rapid_absolute", "set_axis", "auto_home", "probe",
                        "modes", "modes", "feed", "power", "fan", "temp", "sleep", "tool_on", "power_on", "tool_change",
                        "halt", "halt_kw", "comment", "annotate", "ehalt", "off"])
+    if adv:
+        kind = rng.choice(TEXT_KINDS)
 
     def coords(allow_empty=True):
         kw = {}
@@ -384,7 +405,7 @@ def gen_op(rng, dp, malformed):
             kw[rng.choice(["S", "R", "s", "P"])] = bad() if malformed else v("pos")
             if rng.random() < 0.3:
                 kw["T"] = rng.randint(0, 3)
-        hcm = cm if rng.random() < 0.5 else None
+        hcm = cm if adv or rng.random() < 0.5 else None
         st = {"kind": "table", "code": code, "params": list(kw.items()) if kw else None, "c": hcm, "desc": desc}
         if not kw:
             st["params"] = []  # halt always passes the (possibly empty) kwargs dict
@@ -397,16 +418,16 @@ def gen_op(rng, dp, malformed):
             kw = {**kw, "comment": hcm}
         return "halt", C("halt", m, **kw), [st]
     if kind == "comment":
-        text = rng.choice([c for c in COMMENTS if c is not None])
+        text = free_text()
         args = rng.choice([(), (), (3,), ("a", 1.5), ("x\ny",)])
         full = text if not args else f"{text} {' '.join(str(a) for a in args)}"
         return "comment", C("comment", text, *args), [{"kind": "text", "c": full}]
     if kind == "annotate":
         key = rng.choice(["tool", "layer_height", "k", "_x9"])
-        val = rng.choice([c for c in COMMENTS if c is not None])
+        val = free_text()
         return "annotate", C("annotate", key, val), [{"kind": "text", "c": f"@set {key} = {val}"}]
     if kind == "ehalt":
-        msg = rng.choice([c for c in COMMENTS if c is not None])
+        msg = free_text()
         reset = rng.random() < 0.5
         sts = []
         for enum in (E.SpinMode("off"), E.CoolantMode("off")):
@@ -525,12 +546,15 @@ def relaxed_equal(cfg, stmts, raw, model_raw, ws):
     return out == raw
 
 
-def run_lines(R, n, label, oracle_only=False):
+def run_lines(R, n, label, oracle_only=False, adv=False):
+    """adv: only commands that take free text, under the bracketed comment styles, with adversarial texts"""
     cases = []
     for _ in range(n):
         cfg = gen_cfg(R.rng)
-        malformed = R.rng.random() < 0.12
-        name, call, stmts = gen_op(R.rng, cfg[0], malformed)
+        if adv:
+            cfg = (cfg[0], R.rng.choice(list(F.PAIRS)), cfg[2], cfg[3])
+        malformed = R.rng.random() < (0.12 if not adv else 0.0)
+        name, call, stmts = gen_op(R.rng, cfg[0], malformed, cfg[1], adv)
         cases.append((cfg, name, call, stmts))
     lines, spans = [], []
     for cfg, name, call, stmts in cases:
@@ -547,7 +571,8 @@ def run_lines(R, n, label, oracle_only=False):
         R.case(case, nontrivial=bool(raws) and not bad)
         R.count(label, "line:" + name, "line:outcome:" + (exc or "ok"), f"line:dp={dp}",
                 "line:style:" + sym.strip(), "line:eol:" + le.replace("\\", "\\\\").replace("\r", "CR").replace("\n", "LF"),
-                "line:labels:" + ("default" if labels == ("X", "Y", "Z") else "relabelled"))
+                "line:labels:" + ("default" if labels == ("X", "Y", "Z") else "relabelled"),
+                *sorted({"line:text:" + f for st in stmts for f in F.text_features(st.get("c") or "", F.style_of(sym)[1])}))
         if not oracle_only:
             recs = model[lo: lo + k]
             if any(r == "ValueError" for r in recs):
@@ -645,12 +670,14 @@ def run(R: core.Run):
                                    "exhaustive": False}
     # (b) lines
     run_lines(R, R.n(2500, 60000), "lines:random")
+    run_lines(R, R.n(400, 8000), "lines:adversarial-comment-text", adv=True)
 
     if R.broken:
         # failing-input search: fresh batches judged by the oracle alone
         R.search_batches += 1
         run_numbers(R, [gen_number(R.rng, np) for _ in range(R.n(30000, 200000))], "search:numbers", oracle_only=True)
         run_lines(R, R.n(3000, 30000), "search:lines", oracle_only=True)
+        run_lines(R, R.n(600, 6000), "search:lines:adversarial-comment-text", oracle_only=True, adv=True)
     return {}, {}
 
 
